@@ -438,6 +438,8 @@ fn range_weight(opcodes: &[OpCode], start: usize, end: usize, uncut: &[u128]) ->
     for k in (start..end).rev() {
         let car = match &opcodes[k] {
             OpCode::Loop(iters, body_len) => {
+                #[cfg(melstf_verif)]
+                VERIF_WEIGH_CALLS.with(|c| c.set(c.get() + 1));
                 if (k + 1).saturating_add(*body_len as usize) <= end {
                     uncut[k]
                 } else {
